@@ -14,7 +14,10 @@
      (e) hence for every coefficient list f: integral of f(x) e^{-p x^2} = J0 * E f
                                                                               [gauss_bridge], shifted centre [gauss_bridge_shift]
      (f) final form of (B1): J0 = sqrt(PI/p) -> integral / sqrt(PI/p) = E f   [bridge_B1_modulo_gaussian_integral]
-   What stays outside: the single number  integral of e^{-p x^2} = sqrt(PI/p).
+     (g) the Gaussian integral EXISTS and is positive                         [gaussian_integral_exists, gaussian_integral_pos]
+         hence, with no hypothesis: integral of f e^{-p x^2} / integral of e^{-p x^2} = E f   [gauss_bridge_normalised]
+     (h) scaling: the value for every p follows from  integral of e^{-x^2} = sqrt PI            [gaussian_integral_from_unit, bridge_B1]
+   What stays outside THIS file: the single number  integral of e^{-x^2} = sqrt PI  — proved in Gauss/GaussInt.v.
    Assumptions reported by Print Assumptions: the classical real numbers of the standard library only. *)
 From Coq Require Import Reals Lra Lia List.
 From Coquelicot Require Import Coquelicot.
